@@ -276,6 +276,15 @@ def cls_nested_unary(t, toks):
     return False
 
 
+def cls_if_branch_assignment(t, toks):
+    """an assignment as condition / branch of an `if`: the green tree holds `x` and `= 1` as two children, print_if_expr keeps
+    the first and silently drops the second (no parse error: the program changes)"""
+    for x in walk(t):
+        if x[0] == 'N' and x[1] == "IfExpr" and any(c[0] == 'N' and c[1] == "AssignExpr" for c in x[2]):
+            return True
+    return False
+
+
 # symptoms: parse (output has parse errors) ast (AST differs) comments idem tokens model
 ALL = {"parse", "ast", "comments", "idem", "tokens", "expr", "fmt-err"}
 CLASSES = {
@@ -289,6 +298,7 @@ CLASSES = {
     "if-then-branch-starts-with-bracket": (cls_if_then_open, ALL - {"comments"}),
     "one-element-tuple": (cls_single_tuple_trailing_comma, ALL - {"comments"}),
     "sign-of-signed-operand": (cls_nested_unary, ALL - {"comments"}),
+    "assignment-as-if-branch": (cls_if_branch_assignment, ALL),
 }
 
 
@@ -463,7 +473,7 @@ class FGen:
         elif r == 13:      # unary minus
             self.t("-")
             self.primary(d - 1)
-        elif r == 14 and self.risky:   # record / macro
+        elif r == 14:   # record / macro
             if self.r.chance(1, 2):
                 self.t("{"); self.t(self.name()); self.t("="); self.expr(d - 1); self.t(","); self.t(self.name()); self.t("="); self.expr(d - 1); self.t("}")
             else:
@@ -482,7 +492,10 @@ class FGen:
             if k == 0:
                 self.block(d - 1)
             elif k == 1 and self.risky:
-                self.args(d, 2, 3)     # then-branch starts with `(`
+                if self.r.chance(1, 2):
+                    self.args(d, 2, 3)     # then-branch starts with `(`
+                else:
+                    self.t(self.name()); self.t("="); self.lit()    # assignment as then-branch
             else:
                 self.nonopen(d - 1)
         if self.r.chance(3, 4):
@@ -515,7 +528,9 @@ class FGen:
 
     def stmt(self, d, last):
         r = self.r.below(10)
-        if r < 4:
+        if r == 0 and self.r.chance(1, 3):
+            self.t("letrec"); self.t(self.name()); self.t("="); self.expr(d)
+        elif r < 4:
             self.t("let")
             if self.r.chance(1, 5):
                 self.t("("); self.t(self.name()); self.t(","); self.t(self.name()); self.t(")")
@@ -523,7 +538,7 @@ class FGen:
                 self.t("_")
             else:
                 self.t(self.name())
-                if self.risky and self.r.chance(1, 6):
+                if self.r.chance(1, 6):
                     self.t(":"); self.t("float")
             self.t("=")
             self.expr(d)
@@ -542,6 +557,10 @@ class FGen:
 
     def program(self):
         n = self.r.range(1, 3)
+        if self.risky and self.r.chance(1, 8):
+            for x in ["type", "T%d" % self.r.below(9), "=", "A", "|", "B", "(", "float", ")"]:
+                self.t(x)
+            self.t("\n", "sep")
         for i in range(n):
             r = self.r.below(6)
             if r < 4:
@@ -554,8 +573,8 @@ class FGen:
                     if self.risky and self.r.chance(1, 5):
                         self.t(":"); self.t("float")
                 self.t(")")
-                if self.risky and self.r.chance(1, 6):
-                    self.t("->"); self.t("float")
+                if self.r.chance(1, 6):
+                    self.t("->"); self.t(self.r.choice(["float", "(float,float)", "(float)->float"]))
                 self.block(self.r.range(1, 3))
                 self.t("\n", "sep")
             else:
@@ -626,6 +645,8 @@ def layout(rng, toks, comments=True, risky=False):
         out.append(s)
         prev = (s, fl)
     src = "".join(out)
+    if rng.chance(1, 12):
+        src = src.replace("\n", "\r\n")
     if comments and rng.chance(1, 10):
         src = comment('L') + "\n" + src
     if rng.chance(1, 2) and not src.endswith("\n"):
@@ -868,3 +889,395 @@ def parse_model_answer(l):
     ws = lambda s: [unesc(x) for x in s.split("\x1f")] if s else []
     return {"frag": f[0] == "F1", "admits": f[1] == "A1", "safe": f[2] == "S1", "samedoc": f[3][1:],
             "dwords": ws(f[4]) if len(f) > 4 else [], "cwords": ws(f[5]) if len(f) > 5 else []}
+
+
+# ------------------------------------------------------------------------------------------------
+# re-layout preserving exactly what the parser observes (hypothesis of C14_breaks_safe_same_parse_partial)
+# ------------------------------------------------------------------------------------------------
+def m_ends_expr(p):
+    c = p[-1:]
+    return bool(c) and (c.isalnum() or c in '_")]}' or ord(c) >= 128)
+
+
+def m_sensitive(p, w):
+    return m_ends_expr(p) and w in ("(", "[", ".")
+
+
+def relayout(rng, toks):
+    """new text with the same syntax tokens and comments and the same line-break flag at every sensitive position
+    (Fmt.Model.sensitive); everywhere else a line break is added or removed at random"""
+    out = []
+    prev = None          # previous syntax token text
+    pend_nl = False      # a line break seen since the previous syntax token
+    after_line_comment = False
+    first = True
+    for t in toks:
+        if t == "N":
+            pend_nl = True
+            continue
+        if t[0] in "LB":
+            txt = t[1:]
+            if not first:
+                out.append("\n" if after_line_comment else " ")
+            out.append(txt)
+            after_line_comment = t[0] == 'L'
+            first = False
+            continue
+        w = t[1:].split("\x1f", 1)[1]
+        if not first:
+            if prev is not None and m_sensitive(prev, w):
+                nlb = pend_nl
+            else:
+                nlb = rng.chance(1, 3)
+            if after_line_comment:
+                # the line break that ends the comment is there anyway; it counts for the parser
+                if prev is not None and m_sensitive(prev, w) and not pend_nl:
+                    return None      # cannot be represented (does not occur: a line comment is followed by a LineBreak token)
+                gap = "\n" + " " * rng.below(4)
+            elif nlb:
+                gap = "\n" * rng.range(1, 2) + " " * rng.below(6)
+            else:
+                gap = " " * rng.range(1, 2)
+            out.append(gap)
+        out.append(w)
+        prev = w
+        pend_nl = False
+        after_line_comment = False
+        first = False
+    return "".join(out) + ("\n" if after_line_comment or rng.chance(1, 2) else "")
+
+
+# ------------------------------------------------------------------------------------------------
+# witnesses of the findings: (class, source, what the REAL formatter must show for the finding to be alive)
+# (the same sources are the witnesses of the `_refuted` theorems in Props/C14.v, see Fmt/Witness.v)
+# ------------------------------------------------------------------------------------------------
+def _w_if_then(ans):
+    by = {(r["w"], r["i"]): r for r in ans["runs"]}
+    return (not by[(200, 4)]["ast_same"] or by[(200, 4)]["o"]["cst_errs"] > 0) and by[(1, 4)]["ast_same"]
+
+
+WITNESSES = [
+    ("match-expression", "fn dsp(){ let x = 1\n match x { 0 => 1.0, _ => 2.0 } }\n", lambda a: all("matchx{" in r.get("out", "") for r in a["runs"])),
+    ("type-declaration", "type T = A | B(float)\nfn dsp(){ 1.0 }\n", lambda a: all("typeT=A|B(float)" in r.get("out", "") for r in a["runs"])),
+    ("if-condition-without-parenthesis", "if gate {x}", lambda a: all(r.get("out", "").startswith("ifgate") for r in a["runs"])),
+    ("lambda-without-parameters", "| | x", lambda a: all(r.get("out", "").startswith("|| x") for r in a["runs"])),
+    ("multi-node-list-item", "fn f(x:float){x}", lambda a: all("(x," in r.get("out", "") for r in a["runs"])),
+    ("comment-on-reconstructed-token", "(a, /* c */ b)", lambda a: all("/* c */" not in r.get("out", "") for r in a["runs"])),
+    ("comment-before-first-token-on-its-line", "/* a */ fn f(){ 1 }\n", lambda a: all(r.get("out", "").count("/* a */") == 2 for r in a["runs"])),
+    ("if-then-branch-starts-with-bracket", "if (c)\n (a, b) else d", _w_if_then),
+    ("one-element-tuple", "(a,)", lambda a: all(r.get("out", "").strip() == "(a)" for r in a["runs"])),
+    ("sign-of-signed-operand", "- -x", lambda a: all(r.get("out", "").startswith("--x") for r in a["runs"])),
+    ("assignment-as-if-branch", "if (a) x = 1 else y", lambda a: all("1" not in r.get("out", "1") for r in a["runs"])),
+]
+
+
+def shipped_sources():
+    files = sorted(f for f in glob.glob(os.path.join(REPO, "**", "*.mmm"), recursive=True)
+                   if os.sep + "target" + os.sep not in f)
+    return files
+
+
+def run(ck):
+    ck.level = "other"
+    proved = ck.prove(extra_targets=["theories/Extract/FmtExtract.vo"])
+    quick = ck.tier == "quick"
+
+    # ---- build both sides ----
+    rc, out, exe_m = ocaml_build("fmt_drv", ["fmt_model"], os.path.join(VERIF, "ocaml", "fmt_drv.ml"))
+    model_ok = rc == 0
+    if not model_ok:
+        ck.broken.append("model-build: " + out[-400:])
+    rc, out, bindir = cargo_build("lang", ["fmt_run"])
+    if rc != 0:
+        ck.broken.append("harness-build: " + out[-800:])
+        ck.violation("harness does not build against the repository", {"cargo_output": out[-3000:]}, no_input=True)
+        return finish(ck)
+    exe = os.path.join(bindir, "fmt_run")
+    findings = {f["cls"]: f for f in known_findings("C14")}
+
+    # ---- sources ----
+    S = []     # (origin, src, path)
+    if ck.replay:
+        rp = json.load(open(ck.replay))["replay"]
+        if "src" in rp:
+            S.append(("replay", rp["src"], rp.get("path")))
+    w_idx = {}
+    for cls, src, _ in WITNESSES:
+        w_idx[cls] = len(S)
+        S.append(("witness:" + cls, src, None))
+    cdir = os.path.join(VERIF, "corpus", "C14")
+    for f in sorted(glob.glob(os.path.join(cdir, "*.mmm"))):
+        S.append(("corpus", open(f, errors="replace").read(), None))
+    n_corpus = len(S)
+    n_gen = 4000 if quick else 30000
+    n_risky = 600 if quick else 6000
+    rng = ck.rng.fork("gen")
+    for i in range(n_gen):
+        S.append(("gen", gen_source(rng.fork("g%d" % i), False), None))
+    for i in range(n_risky):
+        S.append(("gen-risky", gen_source(rng.fork("r%d" % i), True), None))
+    # lmmm core programs (well typed), decorated by the layout mutator later
+    try:
+        import lmmm
+        lr = ck.rng.fork("lmmm")
+        for i in range(60 if quick else 600):
+            p = lmmm.Gen(lr.fork("p%d" % i)).program()
+            S.append(("lmmm", lmmm.pp_prog(p), None))
+    except Exception as ex:       # the shared generator is optional
+        ck.coverage["lmmm_generator"] = "unavailable: " + str(ex)[:100]
+    files = shipped_sources()
+    shipped = []
+    for f in files:
+        try:
+            src = open(f, encoding="utf-8").read()
+        except (OSError, UnicodeDecodeError):
+            continue
+        shipped.append((f, src))
+        S.append(("shipped", src, f))
+    # (c) layout / comment mutations of the shipped sources and of the lmmm programs (token spans from the harness)
+    base = [(o, s, p) for (o, s, p) in S if o in ("shipped", "lmmm")]
+    pre = run_harness(exe, [{"m": "parse", "src": s, "path": p} for (_, s, p) in base])
+    mr = ck.rng.fork("mut")
+    k_mut = 3 if quick else 12
+    for (o, s, p), a in zip(base, pre):
+        if not a or a.get("cst_errs", 1) > 0:
+            continue
+        for k in range(k_mut):
+            m = mutate_layout(mr.fork("%s%d" % (p or s[:40], k)), s, a["toks"])
+            if m and m != s:
+                S.append(("mut-" + o, m, p))
+
+    reqs = [{"m": "fmt", "src": s, "widths": WIDTHS, "indents": INDENTS, "cst": True, "path": p} for (_, s, p) in S]
+    t0 = time.time()
+    res = run_harness(exe, reqs)
+    ck.coverage["harness_s"] = round(time.time() - t0, 1)
+
+    # ---- evaluate the property on the implementation ----
+    cnt = {}
+
+    def add(k, n=1):
+        cnt[k] = cnt.get(k, 0) + n
+    viol = []          # (origin, src, path, key, symptoms)
+    crashes = []
+    good_frag = []     # indices of valid sources for the model part
+    known_hits = {}
+    stale = []
+    for idx, ((o, s, p), a) in enumerate(zip(S, res)):
+        add("sources")
+        add("origin:" + o.split(":")[0])
+        if a is None or "crash" in a:
+            crashes.append((o, s, p, a))
+            continue
+        if "in_panic" in a:
+            add("parser_panics_on_input")
+            continue
+        bad, cls = unexplained(a, findings)
+        if bad is None:
+            add("skipped_invalid_input")
+            if o.startswith("witness"):
+                stale.append(o + ": witness is not a valid program any more")
+            continue
+        add("valid_programs")
+        add("runs", len(a["runs"]))
+        allsy = set()
+        for run_ in a["runs"]:
+            allsy |= symptoms(a["in"], run_)
+        if not cls:
+            add("valid_outside_every_known_class")
+        if not allsy:
+            add("programs_all_facts_hold")
+        for c in cls:
+            add("class:" + c)
+            if allsy & CLASSES[c][1]:
+                known_hits.setdefault(c, (s, sorted(allsy)))
+        if bad:
+            viol.append((o, s, p, bad))
+        good_frag.append(idx)
+        if o == "shipped" or idx % 97 == 0:
+            ck.sample({"origin": o, "path": p, "source_head": s[:160], "classes": cls,
+                       "facts_failing_somewhere": sorted(allsy)}, cap=8)
+
+    # witnesses: the finding must still be alive on the real code, and the source must be in its class
+    for (cls, src, pred) in WITNESSES:
+        a = res[w_idx[cls]]
+        if a is None or "in" not in a or a["in"]["cst_errs"] > 0:
+            continue
+        incls = classes_of(a["in"])
+        alive = False
+        try:
+            alive = bool(pred(a))
+        except Exception:
+            alive = False
+        if cls not in incls:
+            ck.broken.append(f"class predicate {cls} does not hold on its own witness")
+            ck.violation(f"class predicate {cls} does not hold on its witness", {"src": src}, no_input=True)
+        if not alive:
+            stale.append(f"{cls}: witness {src!r} no longer shows the defect")
+        elif cls in findings:
+            ck.known(findings[cls], f"{src!r} -> {a['runs'][0].get('out', '')!r}")
+    ck.coverage["findings_not_reproduced"] = stale
+
+    for c, (s, sy) in known_hits.items():
+        if c in findings:
+            ck.known(findings[c], f"{s[:120]!r} fails {sy}")
+
+    # ---- model side: the real output must be an admissible rendering of the model document ----
+    n_frag = n_adm = n_unsafe = n_unsafe_outside = n_samedoc0_good = 0
+    not_admitted = []
+    idem_mismatch = []
+    if model_ok:
+        lines, owner = [], []
+        for idx in good_frag:
+            a = res[idx]
+            for run_, l in model_requests(a):
+                lines.append(l)
+                owner.append((idx, run_))
+        t0 = time.time()
+        try:
+            outs = run_model(exe_m, lines)
+        except Exception as ex:
+            outs = None
+            ck.broken.append("model driver: " + str(ex)[:300])
+        ck.coverage["model_s"] = round(time.time() - t0, 1)
+        if outs is not None:
+            unsafe_srcs = set()
+            for (idx, run_), o in zip(owner, outs):
+                m = parse_model_answer(o)
+                if "err" in m:
+                    ck.broken.append("model driver error: " + m["err"][:200])
+                    continue
+                if not m["frag"]:
+                    add("runs_outside_fragment")
+                    continue
+                n_frag += 1
+                o_, s_, p_ = S[idx]
+                if m["admits"]:
+                    n_adm += 1
+                else:
+                    not_admitted.append((idx, run_["w"], run_["i"]))
+                if not m["safe"]:
+                    n_unsafe += 1
+                    unsafe_srcs.add(idx)
+                sy = symptoms(res[idx]["in"], run_)
+                if m["samedoc"] == "0" and not sy:
+                    n_samedoc0_good += 1
+                if m["samedoc"] == "1" and "idem" in sy:
+                    # the leading-comment wrapper of pretty_print is outside the document (finding FM5)
+                    expl = set()
+                    for c in classes_of(res[idx]["in"], findings):
+                        expl |= CLASSES[c][1]
+                    if "idem" not in expl:
+                        idem_mismatch.append((idx, run_["w"], run_["i"]))
+            for idx in unsafe_srcs:
+                if "if-then-branch-starts-with-bracket" not in classes_of(res[idx]["in"]):
+                    n_unsafe_outside += 1
+    ck.coverage["fragment_runs"] = n_frag
+    ck.coverage["fragment_runs_real_output_admitted_by_model"] = n_adm
+    ck.coverage["fragment_runs_model_unsafe_breaks"] = n_unsafe
+    ck.coverage["sources_model_unsafe_outside_known_class"] = n_unsafe_outside
+    ck.coverage["good_runs_where_idempotence_hypothesis_fails"] = n_samedoc0_good
+
+    # ---- parser line-break rule (hypothesis of C14_breaks_safe_same_parse_partial) on the real parser ----
+    rr = ck.rng.fork("relayout")
+    rl_reqs, rl_owner = [], []
+    n_rl = 2 if quick else 6
+    for idx in good_frag:
+        o, s, p = S[idx]
+        if o.startswith("gen") or o in ("lmmm", "corpus") or (not quick and o == "shipped"):
+            for k in range(n_rl):
+                t = relayout(rr.fork("%d.%d" % (idx, k)), res[idx]["in"]["toks"])
+                if t is not None:
+                    rl_reqs.append({"m": "parse", "src": t, "path": p})
+                    rl_owner.append((idx, t))
+    rl_res = run_harness(exe, rl_reqs) if rl_reqs else []
+    rl_bad = []
+    for (idx, t), a in zip(rl_owner, rl_res):
+        if a is None or "ast" not in a:
+            rl_bad.append((idx, t, "parser crashed"))
+        elif a["cst_errs"] != 0 or a["ast"] != res[idx]["in"]["ast"]:
+            rl_bad.append((idx, t, "different parse"))
+    ck.coverage["relayout_cases"] = len(rl_reqs)
+    ck.coverage["relayout_parse_differs"] = len(rl_bad)
+
+    # ---- numbers ----
+    for k, v in sorted(cnt.items()):
+        ck.coverage[k] = v
+    ck.coverage["evaluations"] = cnt.get("runs", 0)
+    ck.coverage["distinct_nontrivial"] = cnt.get("valid_programs", 0)
+    ck.coverage["widths"] = WIDTHS
+    ck.coverage["indent_sizes"] = INDENTS
+    ck.coverage["shipped_files"] = len(shipped)
+    ck.coverage["known_classes_active"] = sorted(findings)
+
+    # ---- verdicts ----
+    client = Client(exe)
+    for (o, s, p, a) in crashes[:3]:
+        ck.violation("the formatter / parser process died on this input", {"src": s, "path": p, "origin": o, "answer": a,
+                     "how": "echo '{\"m\":\"fmt\",\"src\":<src>,\"widths\":[80],\"indents\":[4]}' | .cache/target/lang/debug/fmt_run"})
+    seen_min = set()
+    for (o, s, p, bad) in viol[:40]:
+        if len(seen_min) >= 4:
+            break
+        key = sorted(bad)[0]
+        want = sorted(bad[key])[0]
+        try:
+            small = shrink(client, s, key, want, findings, p, budget=250 if quick else 600)
+        except Exception:
+            small = s
+        if small in seen_min:
+            continue
+        seen_min.add(small)
+        a = client.ask({"m": "fmt", "src": small, "widths": [key[0]], "indents": [key[1]], "cst": True, "path": p})
+        r0 = (a.get("runs") or [{}])[0]
+        ck.violation("the formatter breaks the property on a valid program outside every known class: " + ",".join(sorted(bad[key])),
+                     {"src": small, "path": p, "origin": o, "width": key[0], "indent": key[1], "facts_failing": sorted(bad[key]),
+                      "output": r0.get("out"), "output_parse_errors": r0.get("o", {}).get("errs"),
+                      "original_src": s if len(s) < 4000 else s[:4000],
+                      "all_failing_configs": {f"{k[0]}/{k[1]}": sorted(v) for k, v in bad.items()},
+                      "how": "./check C14 --replay <this file>   (or: mimium-fmt FILE --width W --indent-size I)"})
+    client.close()
+    if viol:
+        ck.coverage["programs_violating_outside_known_classes"] = len(viol)
+    if not_admitted and not viol:
+        idx, w, i = not_admitted[0]
+        o, s, p = S[idx]
+        ck.broken.append("correspondence Fmt.Model.doc_of/renderings vs mimium_fmt::pretty_print_cst")
+        ck.violation("the real output is not an admissible rendering of the model document (model and implementation disagree)",
+                     {"src": s, "path": p, "width": w, "indent": i, "disagreements": len(not_admitted),
+                      "correspondence": "Fmt.Model.{doc_of,is_rendering} vs cst_print.rs cst_to_doc + pretty::render"}, no_input=True)
+    if idem_mismatch and not viol:
+        idx, w, i = idem_mismatch[0]
+        o, s, p = S[idx]
+        ck.broken.append("correspondence: same model document but different second output")
+        ck.violation("output and input have the same model document but the formatter is not idempotent on it",
+                     {"src": s, "path": p, "width": w, "indent": i}, no_input=True)
+    if rl_bad and not viol:
+        idx, t, why = rl_bad[0]
+        o, s, p = S[idx]
+        ck.broken.append("hypothesis of C14_breaks_safe_same_parse_partial (parser looks at line breaks only at sensitive positions)")
+        ck.violation("two layouts with the same tokens and the same line-break flags at the sensitive positions parse differently: " + why,
+                     {"src": s, "relayout": t, "path": p, "cases": len(rl_bad)}, no_input=True)
+    if not proved and not viol:
+        ck.violation("a proof obligation of Props/C14.v no longer checks", {"broken": ck.broken}, no_input=True)
+    return finish(ck)
+
+
+def finish(ck):
+    ck.finish(
+        explanation=("Props/C14.v proves, over ALL admissible layouts of a document (every flat/broken choice per group, so every width and "
+                     "indent), that laying out preserves the token and comment sequence, and that layouts cannot differ for the parser when no "
+                     "optional break lies before a postfix opener; idempotence is proved from a re-parse hypothesis. The document builder is a "
+                     "transcription of cst_print.rs for the expression/statement fragment, tied to the code by requiring the REAL output at "
+                     "5 widths x 2 indents to be a member of the model's rendering set (sound membership test). The three facts of the "
+                     "property and token preservation are evaluated directly on the real formatter and parser for generated programs, every "
+                     "shipped .mmm and layout/comment mutations of them; failures are accepted only inside the class predicates of "
+                     "KNOWN_FINDINGS.txt."),
+        trusted_base=["Coq 8.16.1 kernel (coqc, vm_compute; no native_compute)",
+                      "extraction: ExtrOcamlBasic + ExtrOcamlString only; OCaml 4.13.1; ocaml/fmt_drv.ml (CST reader, kind tables, trailing-newline wrapper of pretty_print)",
+                      "harness/lang/src/bin/fmt_run.rs (AST/CST/token dumps) and the python-side fact oracle + class predicates in checks/C14.py",
+                      "the width algorithm of the `pretty` crate is not modelled (only the set it chooses from, incl. its next-command indentation rule)",
+                      "the parser is represented by its line-break rule; that the real parser depends on layout only through it is tested (re-layout), not proved",
+                      "match / type declarations / records / macro expansion / modules / use are outside the modelled fragment (facts checked directly only)"],
+        rule=("valid = the input parses without CST errors; per source 5 widths x 2 indent sizes; generated programs come from a syntactic "
+              "generator of the fragment with random layout and numbered comments (a share deliberately contains the known-class constructs), "
+              "shipped = every *.mmm under the repository, mutations = random layout/comment edits at token gaps; distinct_nontrivial = valid programs"))
